@@ -38,6 +38,7 @@ func genC18(r *simrt.Rand, tier string, idx int) *hx.Program {
 	p.P["sticky"] = []int64{50, 80, 95}[r.Intn(3)]
 	p.P["lockyield"] = []int64{10, 30, 100}[r.Intn(3)]
 	p.P["publish_timeout_ms"] = []int64{300, 1000}[r.Intn(2)]
+	p.P["cursors"] = int64(r.Intn(2)) // with the cursors stream configured a promotion does more work (and commits more) before it completes
 	n := 6 + r.Intn(24)
 	if tier == "thorough" {
 		n = 6 + r.Intn(70)
@@ -108,6 +109,7 @@ func execC18(t *testing.T, prog *hx.Program, dec *simrt.Decider, verbose bool) *
 			c.ActivityStream.Enabled = true
 			c.ActivityStream.PublishTimeout = time.Duration(prog.Param("publish_timeout_ms", 1000)) * time.Millisecond
 			c.ActivityStream.PublishAckPolicy = client.AckPolicy_ALL
+			c.CursorsStream.Partitions = int32(prog.Param("cursors", 0))
 			c.Streams.CleanerInterval = time.Hour
 		}
 		n := h.single()
